@@ -68,6 +68,11 @@ claim('C01', 'proof',
  "partial: the two probabilistic hypotheses of gate_correct_partial (modulus-switch drift below the margin, output error below 1/8) are measured on every case and reported in the evidence, not proved about the PRNG (an adversarial mask can exceed the drift margin for n=630; C19 proves >=12 sigma under the noise formulas); runtime behaviour outside the model: FFT rounding and the real key noise",
  "DESIGN.md section 4, C01", "machine-checked proof in Coq (deterministic core) + model/implementation correspondence; probabilistic side conditions measured")
 
+claim('C02', 'proof',
+ "PARTIAL (unbounded-depth induction proved, noise statistics measured). Coq theorems over a phase-level netlist semantics (two-input gates, NOT, COPY, CONSTANT, MUX; destinations may equal sources; wires reused freely): gate contract with inputs up to 3/64 off (a bootstrapped gate maps the sign of its affine combination plus drift to exactly +-1/8 = the table value, for drift < 1/32 resp. 1/16), one-step invariant, and for EVERY netlist of any length/depth/sharing pattern and every sequence of per-gate drifts and fresh errors within the per-gate bounds every wire holds its plaintext bit with error < 3/64 after every instruction and decrypts to eval_plain; NOT's error is exactly the negated input error (no accumulation); the stdev bound is the one the noise formulas F1-F3 give on the generated parameter facts; tied to the code by evaluating random and structured netlists (in-place chains of depth 200/2000, NOT chains, trees, fan-out, ripple adders, multiplexer trees, layers on fresh / maximally noisy inputs) with the real library under both default sets, every wire decrypted after every instruction against a plaintext interpreter and the extracted eval_plain, and by sequential acceptance tests (8 estimator standard deviations) on stdev, mean, max of the phase error of every bootstrapped output and two-sample tests fresh vs deep vs noisy",
+ "partial: the per-gate noise clauses (stdev <= 0.0037/0.0047, x1.35 MUX; |mean| <= bound/4; |error| < 3/64; same distribution for every input history) are measured on >= 3000 outputs per parameter set (quick) and never proved; a statistic above its bound by less than 8 estimator standard deviations after the whole sample budget is reported in the evidence notes, not alarmed on",
+ "DESIGN.md section 4, C02", "machine-checked proof in Coq (induction over netlists) + model/implementation correspondence; noise statistics measured")
+
 NA_REASON = "check not built yet in this revision (work in progress; DESIGN.md section 8 gives the order)"
 checks = []
 for p in props:
